@@ -568,7 +568,9 @@ def keywords_for(spec, method):
     prog, kt = spec["prog"], spec["kwtype"]
     cls = {"sp": kws.SinglePointKeywords, "grad": kws.GradientKeywords, "opt": kws.OptKeywords,
            "optts": kws.OptTSKeywords, "hess": kws.HessianKeywords}[kt]
-    if spec["kwsrc"] in NW_SETS:
+    if spec["kwsrc"] == "nw-optx":     # a functional whose NWChem name contains "opt"
+        kw = cls([kws.BasisSet(name="def2-SVP", nwchem="Def2-SVP"), kws.Functional(name="optx", nwchem="optx optc"), "task dft energy"])
+    elif spec["kwsrc"] in NW_SETS:
         kw = cls([kws.BasisSet(name="def2-SVP", nwchem="Def2-SVP")] + list(NW_SETS[spec["kwsrc"]]))
     elif spec["kwsrc"] == "default":
         base = {"sp": method.keywords.sp, "grad": method.keywords.grad, "opt": method.keywords.opt,
@@ -747,6 +749,21 @@ def run_case(spec, workdir, registry=False, mol=None):
             return res
         res["kw_expected"] = expected_keyword_words(spec, calc.input.keywords, method, mol.n_atoms, res["n_heavy"] > 0)
         res["requested_kw"] = [repr(k) for k in calc.input.keywords]
+        if spec["prog"] == "nwchem":
+            import autode.wrappers.keywords as kws_
+            texts = []
+            for k in calc.input.keywords:
+                if isinstance(k, kws_.Functional):
+                    texts.append(f"dft\n  maxiter 100\n  xc {k.nwchem or k.name}\nend")
+                elif isinstance(k, kws_.BasisSet):
+                    texts.append(f"basis\n  *   library {k.nwchem or k.name}\nend")
+                elif isinstance(k, (kws_.ECP, kws_.MaxOptCycles)):
+                    continue
+                elif isinstance(k, kws_.Keyword):
+                    texts.append(k.nwchem or k.name)
+                else:
+                    texts.append(str(k))
+            res["nw_texts"] = texts
         try:
             with patched(orca_mod, "run_external", fake_orca_run):
                 calc.generate_input()
@@ -914,7 +931,12 @@ def check_case(spec, res):
                 F.append((f"{prog}.execute|mult", f"--uhf {flag('--uhf')} for multiplicity {spec['mult']}"))
     if P["charge"] != spec["charge"]:
         F.append((f"{site}|charge", f"charge {P['charge']} in the file, species has {spec['charge']}"))
-    if prog == "nwchem" and P["mult"] is None:
+    if prog == "nwchem" and P["mult"] is None and n == 1 and spec["mult"] != 1 and \
+            any("functional" in k.lower() and "opt" in k.lower() for k in res.get("requested_kw", [])):
+        F.append((f"{site}|single-atom-opt-rewrite-hits-dft-block",
+                  f"single atom: the dft block of {res.get('requested_kw')} contains 'opt', so NWChem.py:85-96 rewrites it (words with "
+                  f"'opt' -> 'energy') before the dft branch: the functional is garbled and no `mult` line is written for multiplicity {spec['mult']}"))
+    elif prog == "nwchem" and P["mult"] is None:
         # no `mult` (dft) / `nopen` (scf) line at all: NWChem then assumes a closed-shell singlet
         if spec["mult"] != 1:
             F.append((f"{site}|mult-missing-without-dft-or-scf-task",
@@ -1058,7 +1080,10 @@ def check_case(spec, res):
     # keywords
     hay = " ".join(res["files"].values()).lower() + " " + " ".join(p for p in params if p).lower()
     haywords = set(words_of(hay))
+    garbled = any(k.endswith("single-atom-opt-rewrite-hits-dft-block") for k, _ in F)
     for desc, words, why in res["kw_expected"]:
+        if garbled and "functional" in desc.lower():
+            continue
         if prog == "xtb" and not params:      # xTB takes its keywords on the command line only
             continue
         if why == "DROPPED":
@@ -1131,6 +1156,15 @@ def coq_terms_for(spec, res, P, ctx):
             parts.append(f"check_int {p} {kind} FMult {cs(ln)} {zz(spec['mult'])}")
             if kind != "LChargeMult":
                 parts.append(f"check_render {p} {kind} (mk_env \"X\" 0 0 0 0 0 0 {zz(spec['mult'])} 0 0 0 \"0\" \"0\") {cs(ln)}")
+    if prog == "nwchem" and res.get("nw_texts") is not None:
+        n1 = len(spec["atoms"]) == 1
+        ks = "[" + "; ".join("mkNw %s %s %s %s" % tuple("true" if b else "false" for b in (
+            t.lower().startswith("dft"), t.lower().startswith("scf"), "nopen" in t, ("opt" in t.lower()) and n1))
+            for t in res["nw_texts"]) + "]"
+        tscf = "true" if any("task scf" in t.lower() for t in res["nw_texts"]) else "false"
+        nm = sum(1 for k, _ in P["cm_lines"] if k == "LMult")
+        nn = sum(1 for k, _ in P["cm_lines"] if k == "LNopen")
+        parts.append(f"check_nw_spin {tscf} {ks} {nm}%nat {nn}%nat")
     if prog == "xtb":
         parts.append(f"check_title {cs(P['title'])} {zz(spec['charge'])} {zz(spec['mult'])}")
         parts.append(f"check_int XYZ LNAtoms FN {cs(P['natoms_line'])} {zz(len(spec['atoms']))}")
@@ -1699,6 +1733,8 @@ def all_cases(ctx, full):
         for unit in (("nm",) if not full else ("nm", "pm", "a0")):
             specs.append({**common, "prog": prog, "atoms": [list(a) for a in base], "kwtype": "opt",
                           "dist": [[0, 3, 1.5]], "dist_unit": unit})
+    specs.append({**common, "prog": "nwchem", "atoms": [["O", 0.0, 0.0, 0.0]], "kwtype": "sp", "kwsrc": "nw-optx", "mult": 3, "dist": [],
+                  "molecule": False})
     for src in sorted(NW_SETS):                                           # NWChem without a dft block, open shell
         specs.append({**common, "prog": "nwchem", "atoms": [list(a) for a in base], "kwtype": "sp", "kwsrc": src, "mult": 4,
                       "dist": []})
@@ -1944,8 +1980,9 @@ MANIFEST = {
                    "added-internal printer uses the index base of the target program (ORCA 0; Gaussian, Q-Chem, xTB 1); charge and "
                    "multiplicity LINES are read back exactly; point charges (position and charge) are read back within 1e-5."),
     "level_note": ("PARTIAL. Theorems are about the text of one line / one loop; WHICH lines are emitted for a given keyword set is not "
-                   "modelled: `charge_mult_lines_read_back_partial` proves readability of the lines and existence of the print "
-                   "statements only (NWChem omits the multiplicity for mp2/ccsd tasks: standing finding). Per-program keyword blocks "
+                   "modelled, except for NWChem's multiplicity (`nwchem_multiplicity_always_written`, guard generated, with a `_refuted` "
+                   "witness for the single-atom `opt` rewrite); `charge_mult_lines_read_back_partial` proves readability of the lines "
+                   "and existence of the print statements only. Per-program keyword blocks "
                    "(requested keywords appear, untranslatable Keyword rejected), solvent, core count, memory and its units, units of "
                    "constrained distances, the xyz title line, xTB `atoms:` ranges and command line (incl. --input), MOPAC spin "
                    "keywords / potentials / interpolation, every job of a Q-Chem multi-job input, regeneration in one directory, "
